@@ -291,7 +291,7 @@ func runC13(rc *RunCtx) {
 		args := []string{"--max-cpu", fmt.Sprint(cfg.MaxCPU), "--batch-size", fmt.Sprint(cfg.BatchSize)}
 		args = append(args, opts...)
 		args = append(args, "-o", filepath.Join(dir, "out.fasta"), in)
-		spec := CmdSpec{Name: "obiclean", Args: args, Dir: dir, PoolPolicy: cfg.Pool, YieldDensity: cfg.Yield, Policy: cfg.Policy}
+		spec := CmdSpec{Name: "obiclean", Args: args, Dir: dir, PoolPolicy: cfg.Pool, YieldDensity: cfg.Yield, StderrNull: cfg.ErrNull, Policy: cfg.Policy}
 		if tag == "test" && annotBatch > 0 {
 			spec.Knobs = map[string]int{"batch": annotBatch}
 		}
